@@ -50,6 +50,10 @@ pub struct MsgSpec {
     pub chip: u8,
     pub channels: Vec<u16>,
     pub seed: u64,
+    /// the packet header inside the chunks may name another (board, chip) than
+    /// the chunk headers / bank name: the pads are those of the PACKET's identity
+    #[serde(default)]
+    pub packet_identity: Option<(u16, u8)>,
 }
 #[derive(Clone, Debug, Serialize, Deserialize)]
 pub enum Fault {
@@ -133,12 +137,24 @@ fn installed_boards(run: u32) -> Vec<usize> {
     v
 }
 
+/// Chunks (as banks) of one PWB message whose chunk headers / bank name say
+/// (board, chip) while the packet header inside says `pid`.
+fn pwb_banks_with_identity(board: usize, chip: u8, pid: (usize, u8), channels: Vec<(u16, Vec<i16>)>, requested: u16, chunk_size: u16) -> Vec<Bank> {
+    let payload = oracles::pwb::PwbModel::valid(pid.1, PADWING_BOARDS[pid.0].1, channels, requested).encode();
+    oracles::chunk::cut_into_chunks(&payload, chunk_size.max(1) as usize, PADWING_BOARDS[board].2, chip, 0, 0)
+        .into_iter()
+        .map(|c| (format!("PC{}", PADWING_BOARDS[board].0), c.encode()))
+        .collect()
+}
+
 struct Built {
     banks: Vec<Bank>,
     /// wire banks as (board, channel, samples), after de-duplication
     wires: Vec<(usize, u8, Vec<i16>)>,
-    /// messages as (board, chip, channels with samples)
+    /// messages as (board, chip, channels with samples) - the identity in the chunk headers / bank name
     msgs: Vec<(usize, u8, Vec<(u16, Vec<i16>)>)>,
+    /// identity claimed by the packet header of each message (what decides the pads)
+    packet_ids: Vec<(usize, u8)>,
     fault_applied: Option<String>,
 }
 
@@ -154,6 +170,7 @@ fn build_case(c: &C10Case) -> Built {
         .collect();
     let mut seen = HashSet::new();
     let mut msgs: Vec<(usize, u8, Vec<(u16, Vec<i16>)>)> = Vec::new();
+    let mut packet_ids: Vec<(usize, u8)> = Vec::new();
     for m in &c.msgs {
         let board = if installed.is_empty() { m.board_sel as usize % 71 } else { installed[pick(m.board_sel, installed.len())] };
         if !seen.insert((board, m.chip % 4)) {
@@ -163,11 +180,15 @@ fn build_case(c: &C10Case) -> Built {
         ch.sort_unstable();
         ch.dedup();
         msgs.push((board, m.chip % 4, ch.into_iter().map(|k| (k, pad_samples(m.seed, k, c.pad_samples))).collect()));
+        packet_ids.push(match m.packet_identity {
+            Some((sel, chip)) if !installed.is_empty() => (installed[pick(sel, installed.len())], chip % 4),
+            _ => (board, m.chip % 4),
+        });
     }
     // banks: TRG, wires, pad chunks (per message, to address chunks in faults)
     let mut trg: Vec<Bank> = vec![trg_bank(c.timestamp)];
     let mut wire_banks: Vec<Bank> = wires.iter().map(|(b, ch, s)| (wire_bank_name(*b, *ch), adc_packet(*b, *ch, s))).collect();
-    let mut msg_banks: Vec<Vec<Bank>> = msgs.iter().map(|(b, chip, ch)| pwb_banks(*b, *chip, ch.clone(), c.pad_samples, c.chunk_size)).collect();
+    let mut msg_banks: Vec<Vec<Bank>> = msgs.iter().zip(&packet_ids).map(|((b, chip, ch), pid)| pwb_banks_with_identity(*b, *chip, *pid, ch.clone(), c.pad_samples, c.chunk_size)).collect();
     let mut extra: Vec<Bank> = Vec::new();
     let mut applied = None;
     if let Some(f) = &c.fault {
@@ -276,6 +297,7 @@ fn build_case(c: &C10Case) -> Built {
                 if has_pad && !spare.is_empty() {
                     let b = spare[pick(*sel, spare.len())];
                     msg_banks[m] = pwb_banks(b, msgs[m].1, msgs[m].2.clone(), c.pad_samples, c.chunk_size);
+                    packet_ids[m] = (b, msgs[m].1);
                     true
                 } else {
                     false
@@ -311,7 +333,7 @@ fn build_case(c: &C10Case) -> Built {
     banks.extend(extra);
     let perm = permutation(&c.order, banks.len());
     let banks = perm.into_iter().map(|i| banks[i].clone()).collect();
-    Built { banks, wires, msgs, fault_applied: applied }
+    Built { banks, wires, msgs, packet_ids, fault_applied: applied }
 }
 
 type Slots = (HashMap<usize, Vec<f64>>, HashMap<(usize, usize), Vec<f64>>);
@@ -334,16 +356,20 @@ fn model(run: u32, b: &Built) -> Result<Slots, String> {
         }
     }
     let mut ps = HashMap::new();
-    for (board, chip, channels) in &b.msgs {
+    let mut seen_p = HashSet::new();
+    for ((_, _, channels), (board, chip)) in b.msgs.iter().zip(&b.packet_ids) {
         let bid = padwing::BoardId::try_from(PADWING_BOARDS[*board].0).map_err(|_| "board table")?;
         for (k, samples) in channels {
             let Some(RefChannel::Pad(pad)) = ref_channel(*k) else { continue };
             let pos = TpcPadPosition::try_new(run, bid, AfterId::try_from(*chip).unwrap(), PadChannelId::try_from(pad).unwrap()).map_err(|e| format!("no pad map: {e}"))?;
             let key = (usize::from(pos.column), usize::from(pos.row));
+            if !seen_p.insert(key) {
+                return Err("two channels on one pad".into());
+            }
             let (baseline, gain, delay) = calib::pad_calibration(run, key.0, key.1).ok_or_else(|| format!("no pad calibration for {key:?}"))?;
             let sig: Vec<f64> = samples.iter().skip(delay).map(|&v| ((v as i32 - baseline as i32) as f64) * gain).collect();
-            if !sig.is_empty() && ps.insert(key, sig).is_some() {
-                return Err("two channels on one pad".into());
+            if !sig.is_empty() {
+                ps.insert(key, sig);
             }
         }
     }
@@ -440,7 +466,8 @@ fn fault() -> impl Strategy<Value = Fault> {
 fn case() -> impl Strategy<Value = C10Case> {
     let wire = (0u8..8, 0u8..32, prop_oneof![3 => 64u16..=140, 2 => 140u16..=700, 1 => 700u16..=2000], any::<u64>()).prop_map(|(board, channel, len, seed)| WireSpec { board, channel, len, seed });
     let channels = prop_oneof![3 => vec(1u16..=79, 1..=4), 2 => vec(1u16..=79, 4..=30), 1 => Just((1..=79).collect::<Vec<u16>>()), 1 => Just(vec![])];
-    let msg = (any::<u16>(), 0u8..4, channels, any::<u64>()).prop_map(|(board_sel, chip, channels, seed)| MsgSpec { board_sel, chip, channels, seed });
+    let msg = (any::<u16>(), 0u8..4, channels, any::<u64>(), prop::option::weighted(0.15, (any::<u16>(), 0u8..4)))
+        .prop_map(|(board_sel, chip, channels, seed, packet_identity)| MsgSpec { board_sel, chip, channels, seed, packet_identity });
     let ignored = prop_oneof![
         (0u8..8, 0u8..16, vec(any::<u8>(), 0..=40)).prop_map(|(board, channel, data)| Ignored::BvBank { board, channel, data }),
         vec(any::<u8>(), 0..=40).prop_map(Ignored::Trb3),
